@@ -292,15 +292,12 @@ theorem lemma_natBytes_ne (n : Nat) : (natBytes n).isEmpty = false := by
 
 theorem rfc_shape (env : Env) (f : Fmt) (e : Err) :
     shapeOK .rfc9457 (formatRFC env f e).status (formatRFC env f e).body = true := by
-  simp only [formatRFC]
-  generalize hp : ({ type := determineType f e, title := env.stText (determineStatus f e), status := determineStatus f e,
-      detail := msgOf env.stText e, instance_ := env.path, extensions := _ } : Problem) = p
-  have hs : p.status = determineStatus f e := by rw [← hp]
-  obtain ⟨h1, h2, h3, h4, h5⟩ := reserved_not_overridable p
-  simp only [shapeOK, isStrAt, optStrAt, h1, h2, h3, h4, h5, hs, Bool.and_eq_true]
-  refine ⟨rfl, ⟨⟨⟨⟨rfl, rfl⟩, ?_⟩, ?_⟩, by simp⟩⟩
-  · split <;> simp_all
-  · split <;> simp_all
+  obtain ⟨h1, h2, h3, h4, h5⟩ := reserved_not_overridable (rfcProblem env f e)
+  have hs : (rfcProblem env f e).status = determineStatus f e := rfl
+  simp only [formatRFC, shapeOK, isStrAt, optStrAt, h1, h2, h3, h4, h5, hs, Bool.and_eq_true]
+  refine ⟨rfl, ⟨⟨⟨⟨trivial, trivial⟩, ?_⟩, ?_⟩, by simp⟩⟩
+  · by_cases h : (rfcProblem env f e).detail.isEmpty = true <;> simp [h]
+  · by_cases h : (rfcProblem env f e).instance_.isEmpty = true <;> simp [h]
 
 /-- shape of one JSON:API error object -/
 def IsApiErr (status : Bytes) (x : Json) : Prop := isObj x = true ∧ x.get? kStatus = some (.str status)
@@ -308,85 +305,79 @@ def IsApiErr (status : Bytes) (x : Json) : Prop := isObj x = true ∧ x.get? kSt
 theorem lemma_apiErr (status title code detail : Bytes) (pointer : Option Bytes) (metaV : Option Json)
     (hs : status.isEmpty = false) : IsApiErr status (jsonAPIErrorJson status title code detail pointer metaV) := by
   have h1 : (kId == kStatus) = false := by decide
-  have h2 : (kStatus == kStatus) = true := by decide
   refine ⟨rfl, ?_⟩
-  simp [jsonAPIErrorJson, Json.get?, hs, List.find?_cons, h1, h2]
+  simp [jsonAPIErrorJson, Json.get?, hs, h1]
 
 theorem lemma_fieldErr (status title errMsg : Bytes) (field : Json) (hs : status.isEmpty = false) :
     IsApiErr status (jsonAPIFieldError status title errMsg field) := by
   unfold jsonAPIFieldError
-  simp only
   split <;> exact lemma_apiErr _ _ _ _ _ _ hs
 
-theorem jsonapi_shape (env : Env) (f : Fmt) (e : Err) :
-    shapeOK .jsonapi (formatJSONAPI env f e).status (formatJSONAPI env f e).body = true := by
-  have hs := lemma_natBytes_ne (determineStatus f e)
-  have hk : (kErrors == kErrors) = true := by decide
-  simp only [formatJSONAPI, shapeOK, isObj, Json.get?, List.find?_cons, hk, Option.map_some, Bool.true_and,
-    Bool.and_eq_true, List.all_eq_true]
-  -- the list before the final emptiness guard
-  generalize hL : (match asDetails e with
-      | some det =>
-        if (match det with
-            | .arr xs => xs.map (jsonAPIFieldError (natBytes (determineStatus f e)) (env.stText (determineStatus f e)) (msgOf env.stText e))
-            | _ => []).isEmpty = true then
-          [jsonAPIErrorJson (natBytes (determineStatus f e)) (env.stText (determineStatus f e)) [] (msgOf env.stText e) none
-            (some (.obj [(kDetails, det)]))]
-        else
-          (match det with
-            | .arr xs => xs.map (jsonAPIFieldError (natBytes (determineStatus f e)) (env.stText (determineStatus f e)) (msgOf env.stText e))
-            | _ => [])
-      | none => [jsonAPIErrorJson (natBytes (determineStatus f e)) (env.stText (determineStatus f e)) ((asCode e).getD [])
-          (msgOf env.stText e) none none]) = L
-  have hall : ∀ x ∈ L, IsApiErr (natBytes (determineStatus f e)) x := by
-    intro x hx
-    rw [← hL] at hx
-    split at hx
-    · split at hx
-      · simp only [List.mem_singleton] at hx; subst hx; exact lemma_apiErr _ _ _ _ _ _ hs
-      · split at hx
-        · simp only [List.mem_map] at hx
-          obtain ⟨fld, _, rfl⟩ := hx
-          exact lemma_fieldErr _ _ _ _ hs
-        · cases hx
-    · simp only [List.mem_singleton] at hx; subst hx; exact lemma_apiErr _ _ _ _ _ _ hs
-  split
-  · rename_i hemp
+theorem lemma_orSingle (l : List Json) (d : Json) :
+    orSingle l d ≠ [] ∧ ∀ x ∈ orSingle l d, x = d ∨ x ∈ l := by
+  unfold orSingle
+  cases l with
+  | nil => simp
+  | cons a as =>
     refine ⟨by simp, ?_⟩
     intro x hx
-    simp only [List.mem_singleton] at hx
-    subst hx
-    obtain ⟨a, b⟩ := lemma_apiErr (natBytes (determineStatus f e)) (env.stText (determineStatus f e)) [] (msgOf env.stText e) none none hs
-    simp [a, b]
-  · rename_i hne
-    refine ⟨by simpa using hne, ?_⟩
-    intro x hx
-    obtain ⟨a, b⟩ := hall x hx
-    simp [a, b]
+    right
+    simpa using hx
+
+theorem lemma_fromDetails (status title errMsg : Bytes) (det : Json) (hs : status.isEmpty = false) :
+    ∀ x ∈ jsonAPIFromDetails status title errMsg det, IsApiErr status x := by
+  intro x hx
+  rcases (lemma_orSingle _ _).2 x hx with h | h
+  · subst h; exact lemma_apiErr _ _ _ _ _ _ hs
+  · cases det with
+    | arr xs =>
+      simp only [jsonAPIFieldErrors, List.mem_map] at h
+      obtain ⟨fld, _, rfl⟩ := h
+      exact lemma_fieldErr _ _ _ _ hs
+    | _ => simp [jsonAPIFieldErrors] at h
+
+theorem lemma_apiErrors (env : Env) (f : Fmt) (e : Err) :
+    jsonAPIErrors env f e ≠ [] ∧ ∀ x ∈ jsonAPIErrors env f e, IsApiErr (natBytes (determineStatus f e)) x := by
+  have hs := lemma_natBytes_ne (determineStatus f e)
+  refine ⟨(lemma_orSingle _ _).1, ?_⟩
+  intro x hx
+  rcases (lemma_orSingle _ _).2 x hx with h | h
+  · subst h; exact lemma_apiErr _ _ _ _ _ _ hs
+  · unfold jsonAPIErrorsRaw at h
+    split at h
+    · exact lemma_fromDetails _ _ _ _ hs x h
+    · simp only [List.mem_singleton] at h; subst h; exact lemma_apiErr _ _ _ _ _ _ hs
 
 /-- **JSON:API always has a non-empty errors array** — for every error value, also when `Details()`
     is an empty slice, `null`, or not a slice at all -/
 theorem jsonapi_nonempty (env : Env) (f : Fmt) (e : Err) :
-    ∃ x xs, (formatJSONAPI env f e).body.get? kErrors = some (.arr (x :: xs)) := by
-  have := jsonapi_shape env f e
-  simp only [shapeOK, Bool.and_eq_true] at this
-  obtain ⟨_, h⟩ := this
-  split at h
-  · rename_i xs heq
-    cases xs with
-    | nil => simp at h
-    | cons x xs => exact ⟨x, xs, heq⟩
-  · cases h
+    ∃ x xs, (formatJSONAPI env f e).body = .obj [(kErrors, .arr (x :: xs))] := by
+  obtain ⟨hne, _⟩ := lemma_apiErrors env f e
+  cases h : jsonAPIErrors env f e with
+  | nil => exact absurd h hne
+  | cons x xs => exact ⟨x, xs, by simp [formatJSONAPI, h]⟩
+
+theorem jsonapi_shape (env : Env) (f : Fmt) (e : Err) :
+    shapeOK .jsonapi (formatJSONAPI env f e).status (formatJSONAPI env f e).body = true := by
+  obtain ⟨hne, hall⟩ := lemma_apiErrors env f e
+  have hget : Json.get? kErrors (formatJSONAPI env f e).body = some (.arr (jsonAPIErrors env f e)) := by
+    simp [formatJSONAPI, Json.get?]
+  unfold shapeOK
+  rw [hget]
+  simp only [formatJSONAPI, Bool.and_eq_true, List.all_eq_true]
+  refine ⟨rfl, by simpa using hne, ?_⟩
+  intro x hx
+  obtain ⟨a, b⟩ := hall x hx
+  rw [a, b]
+  simp
 
 theorem simple_shape (env : Env) (f : Fmt) (e : Err) :
     shapeOK .simple (formatSimple env f e).status (formatSimple env f e).body = true := by
   simp only [formatSimple, shapeOK, isObj, Bool.true_and, isStrAt]
-  have : Json.get? kError (.obj (sortKvs ([(kError, .str (msgOf env.stText e))]
-      ++ (match asDetails e with | some d => [(kDetails, d)] | none => [])
-      ++ (match asCode e with | some c => [(kCode, .str c)] | none => [])))) = some (.str (msgOf env.stText e)) := by
+  have : Json.get? kError (.obj (sortKvs (simpleKvs env e))) = some (.str (msgOf env.stText e)) := by
     apply lemma_get_unique
     · intro x hx hk
-      simp only [List.mem_append, List.mem_singleton] at hx
+      simp only [simpleKvs, List.mem_append, List.mem_singleton] at hx
       rcases hx with (hx | hx) | hx
       · rw [hx]
       · split at hx
@@ -395,7 +386,7 @@ theorem simple_shape (env : Env) (f : Fmt) (e : Err) :
       · split at hx
         · simp only [List.mem_singleton] at hx; subst hx; dsimp only at hk; exact absurd hk (by decide)
         · cases hx
-    · exact ⟨_, by simp, rfl⟩
+    · exact ⟨(kError, .str (msgOf env.stText e)), by simp [simpleKvs], rfl⟩
   rw [this]
 
 theorem format_shape (env : Env) (f : Fmt) (e : Err) :
@@ -418,5 +409,344 @@ theorem format_media_type (env : Env) (f : Fmt) (e : Err) :
   · show headerMediaType ctRFC = _; decide
   · show headerMediaType ctJSONAPI = _; decide
   · show headerMediaType ctSimple = _; decide
+
+
+/-! ### formatter selection -/
+
+theorem lemma_fallback_candidate (opts : List Opt) : fallbackFmt ∈ candidates opts := by
+  induction opts with
+  | nil => simp [candidates]
+  | cons o rest ih => cases o <;> simp [candidates, ih]
+
+/-- every formatter the configuration can hand out satisfies `Q` -/
+def CfgIn (c : Cfg) (Q : Fmt → Prop) : Prop :=
+  (∀ f, c.formatter = some f → Q f) ∧ (∀ kv ∈ c.formatters, Q kv.2)
+
+theorem lemma_fold_in (opts : List Opt) (c : Cfg) (Q : Fmt → Prop) (h : CfgIn c Q)
+    (hc : ∀ f ∈ candidates opts, Q f) : CfgIn (opts.foldl applyOpt c) Q := by
+  induction opts generalizing c with
+  | nil => exact h
+  | cons o rest ih =>
+    simp only [List.foldl_cons]
+    apply ih
+    · cases o with
+      | formatter f =>
+        refine ⟨?_, h.2⟩
+        intro g hg
+        simp only [applyOpt, Option.some.injEq] at hg
+        subst hg
+        exact hc _ (by simp [candidates])
+      | formatters m =>
+        refine ⟨by intro g hg; simp [applyOpt] at hg, ?_⟩
+        intro kv hkv
+        simp only [applyOpt] at hkv
+        exact hc _ (by simp only [candidates, List.mem_append, List.mem_map]; left; exact ⟨kv, hkv, rfl⟩)
+      | defaultFormat d => exact h
+    · intro f hf
+      apply hc
+      cases o <;> simp [candidates, hf]
+
+theorem lemma_lookup_mem (mt : Bytes) (m : List (Bytes × Fmt)) (f : Fmt) (h : lookupFmt mt m = some f) :
+    ∃ kv ∈ m, kv.1 = mt ∧ kv.2 = f := by
+  simp only [lookupFmt, Option.map_eq_some_iff] at h
+  obtain ⟨kv, hf, rfl⟩ := h
+  exact ⟨kv, List.mem_of_find?_eq_some hf, by simpa using List.find?_some hf, rfl⟩
+
+theorem lemma_select_in (c : Cfg) (ans : Bytes) (Q : Fmt → Prop) (h : CfgIn c Q) (hf : Q fallbackFmt) :
+    Q (selectFormatter c ans) := by
+  unfold selectFormatter
+  split
+  · rename_i f hfm; exact h.1 f hfm
+  · split
+    · exact hf
+    · split
+      · rename_i f hl
+        split at hl
+        · cases hl
+        · obtain ⟨kv, hkv, _, rfl⟩ := lemma_lookup_mem _ _ _ hl
+          exact h.2 kv hkv
+      · split
+        · rename_i f hl
+          split at hl
+          · cases hl
+          · obtain ⟨kv, hkv, _, rfl⟩ := lemma_lookup_mem _ _ _ hl
+            exact h.2 kv hkv
+        · exact hf
+
+/-- whatever the options and whatever `Accepts` answers, the formatter used is one the configuration
+    mentions or the documented RFC 9457 fallback -/
+theorem select_is_candidate (opts : List Opt) (ans : Bytes) : selectFormatter (mkCfg opts) ans ∈ candidates opts := by
+  apply lemma_select_in _ _ (· ∈ candidates opts) _ (lemma_fallback_candidate opts)
+  apply lemma_fold_in opts defaultCfg _ _ (fun f h => h)
+  refine ⟨?_, by simp [defaultCfg]⟩
+  intro f hf
+  simp only [defaultCfg, Option.some.injEq] at hf
+  subst hf
+  exact lemma_fallback_candidate opts
+
+/-- the contract assumed for `router.Context.Accepts` (C19's subject; the driver receives its real
+    answers): for a well-formed Accept header, the answer is empty only if the client accepts none of
+    the offers, and otherwise it is an offer the client accepts -/
+def AcceptsContract (offers : List Bytes) (accept : Option Bytes) (ans : Bytes) : Prop :=
+  ∀ ranges, parseAcceptHdr accept = some ranges →
+    (ans = [] → ∀ o ∈ offers, clientAccepts ranges o = false) ∧
+    (ans ≠ [] → ans ∈ offers ∧ clientAccepts ranges ans = true)
+
+theorem lemma_negotiated (m : List (Bytes × Fmt)) (d : Bytes) (all : List Fmt) (accept : Option Bytes) (ans : Bytes)
+    (hall : ∀ kv ∈ m, kv.2 ∈ all) (hfb : fallbackFmt ∈ all)
+    (hc : AcceptsContract (m.map (·.1)) accept ans) :
+    selectFormatter { formatter := none, formatters := m, defaultFormat := d } ans ∈ negotiated m d all accept := by
+  have hgen : selectFormatter { formatter := none, formatters := m, defaultFormat := d } ans ∈ all :=
+    lemma_select_in _ _ (· ∈ all) (And.intro (fun f hf => by cases hf) hall) hfb
+  unfold negotiated
+  cases hp : parseAcceptHdr accept with
+  | none => exact hgen
+  | some ranges =>
+    obtain ⟨hc1, hc2⟩ := hc ranges hp
+    simp only
+    by_cases ha : ans = []
+    · -- no offer is acceptable: the default decides
+      have hacc : m.filter (fun kv => clientAccepts ranges kv.1) = [] := by
+        rw [List.filter_eq_nil_iff]
+        intro kv hkv
+        simpa using hc1 ha kv.1 (List.mem_map.mpr ⟨kv, hkv, rfl⟩)
+      simp only [hacc, List.isEmpty_nil, Bool.not_true, Bool.false_eq_true, if_false]
+      by_cases hd : d.isEmpty = true
+      · simp only [hd, if_true]; exact hgen
+      · simp only [hd, Bool.false_eq_true, if_false]
+        cases hfind : m.find? (fun kv => kv.1 == d) with
+        | none => exact hgen
+        | some kv =>
+          have hm : m.isEmpty = false := by
+            simpa using List.ne_nil_of_mem (List.mem_of_find?_eq_some hfind)
+          have hd' : d.isEmpty = false := by simpa using hd
+          have hsel : selectFormatter { formatter := none, formatters := m, defaultFormat := d } ans = kv.2 := by
+            unfold selectFormatter
+            simp [hm, ha, hd', lookupFmt, hfind]
+          simp [hsel]
+    · -- `Accepts` named an offer: it is configured and the client accepts it
+      obtain ⟨hmem, hok⟩ := hc2 ha
+      obtain ⟨kv0, hkv0, hk0⟩ := List.mem_map.mp hmem
+      have hsome : (m.find? (fun kv => kv.1 == ans)).isSome := by
+        rw [List.find?_isSome]
+        exact ⟨kv0, hkv0, by simp [hk0]⟩
+      obtain ⟨kv, hkv⟩ := Option.isSome_iff_exists.mp hsome
+      have hkvm := List.mem_of_find?_eq_some hkv
+      have hkvk : kv.1 = ans := by simpa using List.find?_some hkv
+      have hm : m ≠ [] := List.ne_nil_of_mem hkvm
+      have hsel : selectFormatter { formatter := none, formatters := m, defaultFormat := d } ans = kv.2 := by
+        unfold selectFormatter
+        have : m.isEmpty = false := by simpa using hm
+        have ha' : ans.isEmpty = false := by simpa using ha
+        simp [this, ha', lookupFmt, hkv]
+      rw [hsel]
+      have hin : kv ∈ m.filter (fun kv => clientAccepts ranges kv.1) := by
+        rw [List.mem_filter]
+        exact ⟨hkvm, by rw [hkvk]; exact hok⟩
+      have hne : (m.filter (fun kv => clientAccepts ranges kv.1)).isEmpty = false := by
+        simpa using List.ne_nil_of_mem hin
+      simp only [hne, Bool.not_false, if_true]
+      exact List.mem_map.mpr ⟨kv, hin, rfl⟩
+
+
+/-- **Negotiation**: for every configuration shape the statement names and every Accept header, the
+    formatter used is one the statement admits — a configured media type the client accepts,
+    otherwise the configured default (any other option combination: a configured formatter or the
+    documented fallback). Hypothesis: the `Accepts` contract. -/
+theorem negotiated_is_accepted_or_default (opts : List Opt) (accept : Option Bytes) (ans : Bytes)
+    (hc : AcceptsContract ((mkCfg opts).formatters.map (·.1)) accept ans) :
+    selectFormatter (mkCfg opts) ans ∈ allowed opts accept := by
+  have hcand := select_is_candidate opts ans
+  unfold allowed
+  split
+  · simpa [candidates] using hcand
+  · simp [mkCfg, applyOpt, defaultCfg, selectFormatter]
+  · rename_i m
+    have := lemma_negotiated m [] (candidates [.formatters m]) accept ans
+      (by intro kv hkv; simp only [candidates, List.mem_append, List.mem_map]; left; exact ⟨kv, hkv, rfl⟩)
+      (lemma_fallback_candidate _) (by simpa [mkCfg, applyOpt, defaultCfg] using hc)
+    simpa [mkCfg, applyOpt, defaultCfg] using this
+  · rename_i m d
+    have := lemma_negotiated m d (candidates [.formatters m, .defaultFormat d]) accept ans
+      (by intro kv hkv; simp only [candidates, List.mem_append, List.mem_map]; left; exact ⟨kv, hkv, rfl⟩)
+      (lemma_fallback_candidate _) (by simpa [mkCfg, applyOpt, defaultCfg] using hc)
+    simpa [mkCfg, applyOpt, defaultCfg] using this
+  · rename_i d m
+    have := lemma_negotiated m d (candidates [.defaultFormat d, .formatters m]) accept ans
+      (by intro kv hkv; simp only [candidates, List.mem_append, List.mem_map]; left; exact ⟨kv, hkv, rfl⟩)
+      (lemma_fallback_candidate _) (by simpa [mkCfg, applyOpt, defaultCfg] using hc)
+    simpa [mkCfg, applyOpt, defaultCfg] using this
+  · exact hcand
+
+/-! ### the response -/
+
+theorem lemma_overWire (w : Wire) (status : Nat) (ct : Bytes) (body : Json)
+    (h : w = .recorder ∨ bodylessStatus status = false) : overWire w status ct body = (status, ct, [body]) := by
+  unfold overWire
+  cases w with
+  | recorder => rfl
+  | server =>
+    rcases h with h | h
+    · cases h
+    · simp only [bodylessStatus, Bool.or_eq_false_iff, Bool.and_eq_false_iff, decide_eq_false_iff_not,
+        beq_eq_false_iff_ne] at h
+      have h1 : ¬ (100 ≤ status ∧ status ≤ 199 ∧ status ≠ 101) := by omega
+      have h2 : ¬ (status = 101 ∨ status = 204) := by omega
+      have h3 : ¬ status = 304 := by omega
+      simp [h1, h2, h3]
+
+/-- the response `fail` writes, for the formatter it selected, meets every clause of the statement -/
+theorem lemma_fail_respOK (env : Env) (cfg : Cfg) (ans : Bytes) (w : Wire) (pos : Nat) (call : Call)
+    (hw : w = .recorder ∨ bodylessStatus (docStatus (selectFormatter cfg ans) call) = false) :
+    respOK (selectFormatter cfg ans) pos call (fail env cfg ans w pos call) = true := by
+  unfold fail
+  simp only
+  have hst := format_status env (selectFormatter cfg ans) call.err
+  rw [lemma_determine_doc] at hst
+  rw [lemma_overWire w _ _ _ (by rw [hst]; exact hw)]
+  simp only [respOK, Bool.and_eq_true]
+  refine ⟨⟨⟨⟨?_, ?_⟩, ?_⟩, trivial⟩, ?_⟩
+  · simp [hst]
+  · simp [format_media_type]
+  · exact format_shape env _ _
+  · rw [List.all_eq_true]
+    intro x hx
+    have := List.mem_range.mp hx
+    simp only [decide_eq_true_eq]
+    omega
+
+/-- **Main theorem (model satisfies the whole C06 oracle)**: for every error value, configuration,
+    Accept header, chain position, helper — outside the recorded class K06c (a status that cannot carry
+    a body, observed over a real connection) and assuming the `Accepts` contract. -/
+theorem fail_meets_spec (env : Env) (opts : List Opt) (accept : Option Bytes) (ans : Bytes) (w : Wire)
+    (pos : Nat) (call : Call)
+    (hc : AcceptsContract ((mkCfg opts).formatters.map (·.1)) accept ans)
+    (hk : knownK06c w opts accept call = false) :
+    specOK opts accept pos call (fail env (mkCfg opts) ans w pos call) = true := by
+  unfold specOK
+  rw [List.any_eq_true]
+  have hal := negotiated_is_accepted_or_default opts accept ans hc
+  refine ⟨selectFormatter (mkCfg opts) ans, hal, ?_⟩
+  apply lemma_fail_respOK
+  unfold knownK06c at hk
+  cases w with
+  | recorder => exact Or.inl rfl
+  | server =>
+    right
+    simp only [beq_self_eq_true, Bool.true_and, List.any_eq_false] at hk
+    simpa using hk _ hal
+
+/-- on a recorder (and for every status that may carry a body) there is no exclusion at all -/
+theorem fail_meets_spec_recorder (env : Env) (opts : List Opt) (accept : Option Bytes) (ans : Bytes)
+    (pos : Nat) (call : Call) (hc : AcceptsContract ((mkCfg opts).formatters.map (·.1)) accept ans) :
+    specOK opts accept pos call (fail env (mkCfg opts) ans .recorder pos call) = true :=
+  fail_meets_spec env opts accept ans .recorder pos call hc (by simp [knownK06c])
+
+/-! ### the clauses of the statement, one by one -/
+
+/-- HTTP status = the formatter's status = the documented status of the error -/
+theorem status_agree (env : Env) (cfg : Cfg) (ans : Bytes) (pos : Nat) (call : Call) :
+    let f := selectFormatter cfg ans
+    (fail env cfg ans .recorder pos call).status = (format env f call.err).status ∧
+    (format env f call.err).status = docStatus f call := by
+  intro f
+  refine ⟨rfl, ?_⟩
+  rw [format_status, lemma_determine_doc]
+
+/-- … and the status member of the body says the same (RFC 9457: the number; JSON:API: the decimal
+    string in every element of `errors`) -/
+theorem body_status_agrees (env : Env) (cfg : Cfg) (ans : Bytes) (pos : Nat) (call : Call) :
+    let f := selectFormatter cfg ans
+    ∃ b, (fail env cfg ans .recorder pos call).bodies = [b] ∧
+      shapeOK f.kind (fail env cfg ans .recorder pos call).status b = true := by
+  intro f
+  exact ⟨(format env f call.err).body, rfl, format_shape env f call.err⟩
+
+/-- Content-Type is the formatter's media type (K06 repaired) -/
+theorem media_type_is_formatters (env : Env) (cfg : Cfg) (ans : Bytes) (pos : Nat) (call : Call) :
+    let f := selectFormatter cfg ans
+    (fail env cfg ans .recorder pos call).contentType = (format env f call.err).contentType ∧
+    headerMediaType (fail env cfg ans .recorder pos call).contentType = mediaTypeOf f.kind := by
+  intro f
+  exact ⟨rfl, format_media_type env f call.err⟩
+
+/-- the chain is aborted: the flag is set and no position after the failing one is entered -/
+theorem fail_aborts (env : Env) (cfg : Cfg) (ans : Bytes) (w : Wire) (pos : Nat) (call : Call) :
+    (fail env cfg ans w pos call).aborted = true ∧ ∀ i ∈ (fail env cfg ans w pos call).entered, i ≤ pos := by
+  refine ⟨rfl, ?_⟩
+  intro i hi
+  have := List.mem_range.mp hi
+  omega
+
+/-- exactly one response body is written -/
+theorem exactly_one_response (env : Env) (cfg : Cfg) (ans : Bytes) (pos : Nat) (call : Call) :
+    (fail env cfg ans .recorder pos call).bodies.length = 1 := rfl
+
+/-! ### non-vacuity and as-shipped witnesses -/
+
+def wEnv : Env := { path := "/f".toList, stText := fun n => if n = 404 then "Not Found".toList else [] }
+def wBoom : Err := .new "boom".toList
+def wNeg : List Opt :=
+  [.formatters [("application/json".toList, { kind := .simple }), ("application/vnd.api+json".toList, { kind := .jsonapi })],
+   .defaultFormat "application/json".toList]
+def wCall : Call := .helper .notFound (some wBoom)
+
+/-- the hypotheses of `fail_meets_spec` are met by a non-trivial input: negotiated configuration,
+    `Accept: application/vnd.api+json`, `Accepts` answering that type -/
+example : AcceptsContract ((mkCfg wNeg).formatters.map (·.1)) (some "application/vnd.api+json".toList)
+    "application/vnd.api+json".toList := by
+  intro ranges h
+  have : ranges = [{ typ := "application".toList, sub := "vnd.api+json".toList, q := 1000 }] := by
+    have h' : parseAcceptHdr (some "application/vnd.api+json".toList) =
+        some [{ typ := "application".toList, sub := "vnd.api+json".toList, q := 1000 }] := by decide
+    rw [h'] at h
+    exact (Option.some.inj h).symm
+  subst this
+  exact And.intro (fun h => by cases h) (fun _ => by decide)
+
+example : (fail wEnv (mkCfg wNeg) "application/vnd.api+json".toList .recorder 1 wCall).contentType = ctJSONAPI := by decide
+example : (fail wEnv (mkCfg wNeg) "application/vnd.api+json".toList .recorder 1 wCall).status = 404 := by decide
+example : knownK06c .server [] none (.failStatus 404 none) = false := by decide
+
+/-- K06, as shipped: `NotFound(err)` with the default RFC 9457 formatter answered
+    `Content-Type: application/json; charset=utf-8` -/
+theorem asis_media_type_witness :
+    headerMediaType (failAsIs wEnv (mkCfgAsIs []) [] .recorder 1 wCall).contentType ≠ mediaTypeOf .rfc9457 ∧
+    specOK [] none 1 wCall (failAsIs wEnv (mkCfgAsIs []) [] .recorder 1 wCall) = false := by
+  decide
+
+/-- K06b, as shipped: with a negotiated map {application/json: Simple, application/vnd.api+json:
+    JSON:API}, default application/json and `Accept: application/vnd.api+json`, the built-in RFC 9457
+    formatter answered — negotiation was never reached -/
+theorem asis_negotiation_witness :
+    (selectFormatter (mkCfgAsIs wNeg) "application/vnd.api+json".toList).kind = .rfc9457 ∧
+    (selectFormatter (mkCfg wNeg) "application/vnd.api+json".toList).kind = .jsonapi ∧
+    specOK wNeg (some "application/vnd.api+json".toList) 1 wCall
+      (fail wEnv (mkCfgAsIs wNeg) "application/vnd.api+json".toList .recorder 1 wCall) = false := by
+  decide
+
+/-- K06c (recorded): over a real connection `FailStatus(204, err)` has no body and `FailStatus(100, err)`
+    goes out as 200 -/
+theorem bodyless_status_witness :
+    (fail wEnv (mkCfg []) [] .server 1 (.failStatus 204 (some wBoom))).bodies = [] ∧
+    (fail wEnv (mkCfg []) [] .server 1 (.failStatus 100 (some wBoom))).status = 200 ∧
+    specOK [] none 1 (.failStatus 204 (some wBoom)) (fail wEnv (mkCfg []) [] .server 1 (.failStatus 204 (some wBoom))) = false ∧
+    knownK06c .server [] none (.failStatus 204 (some wBoom)) = true := by
+  decide
+
+
+/-- the statement without any exclusion (kept visible): it does *not* hold of the code as it is, because
+    of K06c — `fail_meets_spec` is the partial theorem `¬ K06c → model satisfies spec` -/
+def FullStatement : Prop :=
+  ∀ (env : Env) (opts : List Opt) (accept : Option Bytes) (ans : Bytes) (w : Wire) (pos : Nat) (call : Call),
+    AcceptsContract ((mkCfg opts).formatters.map (·.1)) accept ans →
+    specOK opts accept pos call (fail env (mkCfg opts) ans w pos call) = true
+
+theorem full_statement_needs_exclusion : ¬ FullStatement := by
+  intro h
+  have := h wEnv [] none [] .server 1 (.failStatus 204 (some wBoom)) (by
+    intro ranges _
+    exact And.intro (fun _ o ho => by simp [mkCfg, defaultCfg] at ho) (fun hne => absurd rfl hne))
+  exact absurd this (by decide)
 
 end Rivaas.C06
